@@ -32,3 +32,14 @@ package config
 //@   assumed
 //@   props C11
 //@   ensures result == str_casefold(key)
+
+// C09: the temp directory of a configuration is its file system's.
+//@ func (*Configuration).TempDir
+//@   props C01 C04 C08 C09
+//@   modifies fresh, key F:github.com/git-lfs/git-lfs/v3/fs.Filesystem.tmpdir
+//@   ensures isauxdir(result)
+//@ func (*Configuration).Filesystem
+//@   assumed
+//@   props C01 C04 C08 C09 C13
+//@   modifies fresh
+//@   ensures result != nil && (result.tmpdir == "" || isauxdir(result.tmpdir))
